@@ -26,13 +26,15 @@ as found, before the fixes of this audit); AUDIT_TAG=<x> keeps that run's scratc
 import json, os, shutil, subprocess, sys, re, time, hashlib
 from concurrent.futures import ThreadPoolExecutor
 
-ROOT = '/tmp/ag/audit'
-VERIF = os.path.join(ROOT, 'verif')
+# scratch area (outside /repo and /verif; safe to delete) and the verification tree whose translators are audited
+ROOT = os.environ.get('AUDIT_ROOT', '/tmp/dsi-audit')
+VERIF = os.environ.get('AUDIT_VERIF', os.path.dirname(os.path.dirname(os.path.abspath(__file__))))
+os.makedirs(ROOT, exist_ok=True)
 # which translators to run: the (fixed) ones of the tree, or AUDIT_TOOLS=/tmp/ag/audit/tools-orig (pre-fix copy)
 TOOLS = os.environ.get('AUDIT_TOOLS', os.path.join(VERIF, 'tools'))
 TAG = os.environ.get('AUDIT_TAG', '')
 BASE = os.path.join(ROOT, 'gen-baseline')
-CAT = os.path.join(ROOT, 'catalogue.json')
+CAT = os.path.join(os.path.dirname(os.path.abspath(__file__)), 'catalogue.json')
 PRISTINE = '/repo'
 
 
